@@ -76,7 +76,7 @@ _SPEC_CACHE = {}
 
 def parse_spec(text):
     if text not in _SPEC_CACHE:
-        _SPEC_CACHE[text] = ast.parse(text.strip(), mode="eval").body
+        _SPEC_CACHE[text] = ast.parse(text.strip().replace("$", "GHOST_"), mode="eval").body
     return _SPEC_CACHE[text]
 
 
@@ -285,6 +285,8 @@ class Engine:
                 raise OutOfSubset(f"parameter {nm} has no declared type")
             st.vars[nm] = self.symbolic(nm, ty, inp=True)
         for nm, spec in c.ghost.items():
+            st.vars[nm] = self.symbolic(nm, parse_type(spec), inp=True)
+        for nm, spec in c.d.get("ghost_state", {}).items():
             st.vars[nm] = self.symbolic(nm, parse_type(spec), inp=True)
         if self.events_enabled:
             # the ghost trace lives at the reserved reference -1: it can alias no program object
@@ -791,6 +793,8 @@ class Engine:
         st = self.st
         if e.id in st.vars:
             return st.vars[e.id]
+        if e.id.startswith("GHOST_") and "$" + e.id[6:] in st.vars:
+            return st.vars["$" + e.id[6:]]
         r = self.bi.global_name(self, e.id)
         if r is not None:
             return r
@@ -1417,6 +1421,18 @@ class Engine:
         for j, z in enumerate(self.loop_inv(k, spec, i + 1)):
             self.oblige("inv-preserved", z, f"L{k}/{j}")
         raise PathEnd("back edge")
+
+    def spec_value_env(self, text, env):
+        st = self.st
+        saved = st.vars
+        st.vars = dict(st.vars)
+        st.vars.update(env)
+        st.spec += 1
+        try:
+            return self.ev(parse_spec(text))
+        finally:
+            st.spec -= 1
+            st.vars = saved
 
     def ev_spec_value(self, text):
         st = self.st
